@@ -256,9 +256,83 @@ struct Frame
     std::string text;
 };
 
+// The UCI-level statement of C03: `perft` and `go` work on / copy the engine's current position; `hash` and `printboard`
+// must print the same before and after them.
+std::atomic<uint64_t> g_c03_visits{0};
+void c03_cap_cb(int point, engine::Search* s)
+{
+    if (point != engine::verif::NODE && point != engine::verif::QNODE) return;
+    uint64_t v = g_c03_visits.fetch_add(1, std::memory_order_relaxed) + 1;
+    if (v == 20000 || (v > 20000 && v % 20000 == 0)) s->stop();  // the search is only a workload here: bound it
+}
+
+bool c03_uci_bracket(Tape& t, Report& rep)
+{
+    rigns::Rig& R = rigns::rig();
+    engine::verif::callback = &c03_cap_cb;
+    gen::Root root = gen::gen_root(t, &rep, 60);
+    if (ref::legal_moves(root.cur).empty()) return true;
+    std::string cmd = "position fen " + ref::to_fen(root.start);
+    if (!root.moves.empty())
+    {
+        cmd += " moves";
+        for (auto& m : root.moves) cmd += " " + m.uci();
+    }
+    auto snapshot = [&](std::string& hash, std::string& fen) -> bool {
+        size_t mark = R.out.size();
+        R.send("hash");
+        R.send("printboard");
+        long li = R.out.wait_line(mark, [](const std::string& l) { return l == "White to move" || l == "Black to move"; }, 60000);
+        if (li < 0) return false;
+        for (auto& l : R.out.snapshot(mark))
+        {
+            if (l.rfind("Hex: ", 0) == 0) hash = l;
+            if (l.rfind("Fen: ", 0) == 0) fen = l;
+        }
+        return true;
+    };
+    R.send("ucinewgame");
+    R.send(cmd);
+    std::string h0, f0, h1, f1;
+    if (!snapshot(h0, f0)) return rep.fail("undo:uci:no_answer", "hash/printboard not answered\n " + cmd);
+    std::string ops;
+    int nops = 1 + int(t.choose(3));
+    for (int i = 0; i < nops; ++i)
+    {
+        size_t mark = R.out.size();
+        if (t.flag())
+        {
+            int d = 1 + int(t.choose(2));
+            R.send("perft " + std::to_string(d));
+            ops += " ; perft " + std::to_string(d);
+            if (R.out.wait_line(mark, [](const std::string& l) { return l.rfind("Speed:", 0) == 0; }, 300000) < 0) return rep.fail("undo:uci:no_answer", "perft not answered\n " + cmd + ops);
+        }
+        else
+        {
+            int d = 1 + int(t.choose(3));
+            g_c03_visits = 0;
+            R.send("go depth " + std::to_string(d));
+            ops += " ; go depth " + std::to_string(d);
+            if (R.out.wait_line(mark, rigns::is_bestmove, 300000) < 0)
+            {
+                R.send("stop");
+                R.out.wait_line(mark, rigns::is_bestmove, 300000);
+            }
+        }
+        rep.eval();
+        if (!snapshot(h1, f1)) return rep.fail("undo:uci:no_answer", "hash/printboard not answered\n " + cmd + ops);
+        rep.decoded = cmd + ops + " ; hash ; printboard";
+        if (h1 != h0 || f1 != f0)
+            return rep.fail(std::string("undo:uci:") + (f1 != f0 ? "fen" : "hash"), "the engine's position changed across" + ops + "\n before: " + h0 + " " + f0 + "\n after : " + h1 + " " + f1 + "\n session: " + cmd);
+    }
+    rep.cls("c03:uci_bracket");
+    return true;
+}
+
 bool prop_C03(Tape& t, Report& rep)
 {
     br::init_engine();
+    if (t.chance(1, 40)) return c03_uci_bracket(t, rep);
     gen::Root root = gen::gen_root(t, &rep, 60);
     rep.decoded = root.describe();
     const bool viaReplay = !root.moves.empty() && t.flag();
